@@ -12,6 +12,16 @@ FX_INSTR = {"files": [
     {"path": "pkg/shell-operator/operator.go", "calls": {"tqs.NewNamedQueue": "@zzNewNamedQueue", "op.TaskQueues.NewNamedQueue": "@zzNewNamedQueue"}},
 ]}
 
+# kube events manager under the scheduler: locks/channels/goroutines/racy flags are scheduling
+# points, client-go informers are replaced by the hub seam
+KEM_INSTR = [
+    {"path": "pkg/kube_events_manager/resource_informer.go", "sync": True, "conc": True, "touch": ["stopped"]},
+    {"path": "pkg/kube_events_manager/monitor.go", "sync": True, "conc": True, "touch": ["eventsEnabled"]},
+    {"path": "pkg/kube_events_manager/kube_events_manager.go", "conc": True},
+    {"path": "pkg/kube_events_manager/namespace_informer.go", "conc": True, "touch": ["stopped"], "seams": {"namespaceInformer.start": "zzSeamNsStart"}},
+    {"path": "pkg/kube_events_manager/factory.go", "seams": {"FactoryStore.Start": "zzSeamFactoryStart", "FactoryStore.Stop": "zzSeamFactoryStop"}},
+]
+
 CHECKS = {
     "C05": {
         "level": "model_checking",
@@ -83,6 +93,19 @@ CHECKS = {
         "rule": "product enumeration filters x event sequences x type subsets x keepFull; non-trivial = sequence of >= 2 deliveries; distinct = distinct (filter, subset, trigger list)",
         "parts": [
             part("c08", "pkg/kube_events_manager", "TestVerifC08", ["zz_verif_c08_test.go"], shards={"quick": 12, "thorough": 16}),
+        ],
+    },
+    "C01": {
+        "level": "model_checking",
+        "engine": "E1",
+        "technique": "stateless model checking: deviation-bounded DFS over all interleavings of the instrumented informer/monitor code under a controlled scheduler",
+        "level_text": "The real kubeEventsManager, monitor and resourceInformer sources are compiled with their lock, channel, goroutine-start operations and unsynchronised flags as scheduling points and run under a hand-written controlled scheduler; client-go informers are replaced by a hub with one FIFO and one delivery thread per handler. For every scenario (6 histories of <=3 changes over 2 objects / 2 namespaces x {no filter, object-valued jqFilter, full objects dropped, Modified only} x {0,1} extra snapshot readers, namespace.labelSelector with a namespace appearing after start) ALL interleavings of informer delivery, environment, Synchronization (Snapshot; hook; EnableKubeEventCb), extra readers and the event-channel consumer with at most 2 (quick) / 3 (thorough) pre-emptions are executed; each is checked with the suffix oracle against the environment's own mutation log (no early event, per-object order, no loss).",
+        "level_note": "Trusted: the hub as a model of client-go's per-handler ordered delivery (conformance run in the thorough tier), the fake cluster, the scheduler (vrt). Scheduling granularity: lock acquisition, channel ops, goroutine start, listed racy fields; sequential consistency assumed. Bounded: histories, configurations and the pre-emption bound are listed in the evidence.",
+        "rule": "DFS over choice sequences (thread to run at each scheduling point) with at most N pre-emptions; non-trivial = execution with >= 1 pre-emption; distinct = distinct (Synchronization view, delivered event sequence) per scenario",
+        "assumptions": ["informer hub models client-go: per-handler FIFO, initial LIST enqueued at registration, arbitrary lag"],
+        "parts": [
+            part("c01l1", "pkg/kube_events_manager", "TestVerifC01L1", ["zz_verif_c01_test.go"], shards={"quick": 8, "thorough": 16},
+                 extra={"pkg/kube_events_manager": ["zz_verif_hub.go"]}, instrument={"files": KEM_INSTR}, gomaxprocs=1),
         ],
     },
 }
